@@ -242,7 +242,7 @@ impl Model {
         match d.keys.get(key) {
             Some(e) => {
                 if let Some(dl) = e.deadline {
-                    if now >= dl {
+                    if now > dl {
                         d.keys.remove(key);
                         return false;
                     }
@@ -256,7 +256,7 @@ impl Model {
     pub fn purge_all(&mut self) {
         let now = self.now;
         for d in self.dbs.iter_mut() {
-            d.keys.retain(|_, e| e.deadline.map(|dl| now < dl).unwrap_or(true));
+            d.keys.retain(|_, e| e.deadline.map(|dl| now <= dl).unwrap_or(true));
         }
     }
 
@@ -311,7 +311,7 @@ impl Model {
             None => "absent".into(),
             Some(e) => {
                 if let Some(dl) = e.deadline {
-                    if self.now >= dl {
+                    if self.now > dl {
                         return format!("expired-{}", e.val.type_name());
                     }
                 }
@@ -347,7 +347,7 @@ impl Model {
             out.push_str(&format!("db{}:", i));
             for (k, e) in d.keys.iter() {
                 if let Some(dl) = e.deadline {
-                    if self.now >= dl {
+                    if self.now > dl {
                         continue;
                     }
                 }
